@@ -714,8 +714,10 @@ impl FinishedSession {
             // UNWRAP: if rollback_delta is `Some`, then rollback must be also `Some`.
             let rollback = nomt.store.rollback().unwrap();
             if let Err(e) = rollback.commit(rollback_delta) {
-                // The in-memory root has already advanced and the log may hold a partial record:
-                // the handle is no longer usable for commits.
+                // Nothing was committed, so the in-memory root goes back to what the store
+                // holds. The log may hold a partial record: the handle is no longer usable for
+                // commits.
+                nomt.shared.lock().root = self.prev_root;
                 nomt.store.poison();
                 return Err(e);
             }
@@ -839,9 +841,10 @@ impl Overlay {
             anyhow::bail!("Store is poisoned due to prior error");
         }
 
+        let prev_root = self.prev_root();
         {
             let mut shared = nomt.shared.lock();
-            if shared.root != self.prev_root() {
+            if shared.root != prev_root {
                 anyhow::bail!(
                     "Changeset no longer valid (expected previous root {:?}, got {:?})",
                     self.prev_root(),
@@ -859,8 +862,10 @@ impl Overlay {
             // UNWRAP: if rollback_delta is `Some`, then rollback must be also `Some`.
             let rollback = nomt.store.rollback().unwrap();
             if let Err(e) = rollback.commit(rollback_delta) {
-                // The in-memory root has already advanced and the log may hold a partial record:
-                // the handle is no longer usable for commits.
+                // Nothing was committed, so the in-memory root goes back to what the store
+                // holds. The log may hold a partial record: the handle is no longer usable for
+                // commits.
+                nomt.shared.lock().root = prev_root;
                 nomt.store.poison();
                 return Err(e);
             }
@@ -908,9 +913,10 @@ impl Overlay {
             anyhow::bail!("Store is poisoned due to prior error");
         }
 
+        let prev_root = self.prev_root();
         {
             let mut shared = nomt.shared.lock();
-            if shared.root != self.prev_root() {
+            if shared.root != prev_root {
                 anyhow::bail!(
                     "Changeset no longer valid (expected previous root {:?}, got {:?})",
                     self.prev_root(),
@@ -928,8 +934,10 @@ impl Overlay {
             // UNWRAP: if rollback_delta is `Some`, then rollback must be also `Some`.
             let rollback = nomt.store.rollback().unwrap();
             if let Err(e) = rollback.commit(rollback_delta) {
-                // The in-memory root has already advanced and the log may hold a partial record:
-                // the handle is no longer usable for commits.
+                // Nothing was committed, so the in-memory root goes back to what the store
+                // holds. The log may hold a partial record: the handle is no longer usable for
+                // commits.
+                nomt.shared.lock().root = prev_root;
                 nomt.store.poison();
                 return Err(e);
             }
